@@ -37,8 +37,14 @@ def shard(modname, fam, shard_no, nshards):
     ctx = _ctx(modname, fam)
     acc = make_acc(mod)
     first = last = None
-    for text in alphabets.enum(fam['alphabet'], fam['n'], shard_no, nshards, fam.get('n_lo', 0),
-                               fam.get('slice_mod'), fam.get('slice_eq', 0)):
+    if fam.get('kind') == 'g3':
+        from . import sentences
+        source = sentences.g3_texts(fam['gversion'], fam['n'], shard_no, nshards, None,
+                                    fam.get('slice_mod'), fam.get('slice_eq', 0))
+    else:
+        source = alphabets.enum(fam['alphabet'], fam['n'], shard_no, nshards, fam.get('n_lo', 0),
+                                fam.get('slice_mod'), fam.get('slice_eq', 0))
+    for text in source:
         mod.check_text(ctx, fam, text, acc)
         if first is None:
             first = text
@@ -60,7 +66,10 @@ def sweep(R, modname, fams, nshards=NSHARDS):
     for f in fams:
         info = {k: v for k, v in f.items() if k in ('alphabet', 'n', 'n_lo', 'versions', 'slice_mod',
                                                       'slice_eq', 'kind')}
-        info['symbols'] = alphabets.describe(f['alphabet'])
+        if f.get('kind') == 'g3':
+            info['vocabulary'] = 'sentences.G3_VOCAB (25 grammar symbols)'
+        else:
+            info['symbols'] = alphabets.describe(f['alphabet'])
         R.section(f['name'], accs[f['name']], **info)
 
 
@@ -89,3 +98,12 @@ def seed_slice(alphabet, n, versions, seed, mod=64):
     """The deterministic slice of level n (texts of exactly n symbols) selected by the seed."""
     return fam(alphabet, n, versions, name='%s=%d/slice%d' % (alphabet, n, seed % mod), n_lo=n,
                slice_mod=mod, slice_eq=seed % mod)
+
+
+def g3(gversion, L, versions=None, slice_mod=None, slice_eq=0, name=None):
+    """single-token mutants of the G2(L) sentences of grammar `gversion`, judged under `versions`"""
+    d = dict(name=name or 'G3(%d)/%s%s' % (L, gversion, '/slice%d' % slice_eq if slice_mod else ''),
+             alphabet='g3', n=L, versions=list(versions or [gversion]), kind='g3', gversion=gversion)
+    if slice_mod:
+        d.update(slice_mod=slice_mod, slice_eq=slice_eq)
+    return d
